@@ -259,4 +259,8 @@ def run(repo, tier) -> Result:
 
     check_config_passthrough("C08", res, repo)
     check_registry_order("C08", res, repo)
+    # removing a member removes what it wrote (helper series included): a later member of the same name starts clean, as a standalone would
+    from ..ownership import check_hexital_purge
+
+    check_hexital_purge("C08", res, repo)
     return res
